@@ -138,6 +138,7 @@ func main() {
 	mutant := flag.String("mutant", "", "mutant description (json): apply as overlay, run its rules, print verdict")
 	mutantsDir := flag.String("mutants", "/verif/mutants", "directory with overlay mutants (thorough self-test)")
 	list := flag.Bool("list", false, "list rules")
+	genRef := flag.Bool("gen-reference", false, "(development) regenerate /verif/reference from the tree at -repo; never used by a check")
 	explain := flag.String("explain", "", "pretty-print a violation report")
 	verbose := flag.Bool("v", false, "print every obligation")
 	seedFlag := flag.Int("seed", 0, "recorded only; nothing is random")
@@ -150,6 +151,14 @@ func main() {
 		for _, r := range allRules {
 			fmt.Printf("%-7s %-20s floor=%d must=%v  %s\n", r.ID, strings.Join(r.Props, ","), r.Floor, r.MustExist, r.Text)
 		}
+		return
+	}
+	if *genRef {
+		if err := genSkipReference(*repo); err != nil {
+			fmt.Fprintln(os.Stderr, err)
+			os.Exit(2)
+		}
+		fmt.Println("reference regenerated")
 		return
 	}
 	if *explain != "" {
